@@ -18,16 +18,23 @@ static atomic_long foreign_retire;        /* TProbe destructed by a thread other
 static atomic_long tprobe_live;
 static atomic_long tprobe_child_live;     /* TProbes made by child threads and not finalised yet: 0 once every child is joined */
 static pthread_t main_thread;
+#define MAXT 32
+static __thread int my_idx = -1;          /* index of the child thread running this code (-1: main) */
+static atomic_long live_by[MAXT];         /* TProbes of child i not finalised yet */
+static atomic_int fn_done[MAXT];          /* child i's function is about to return (its teardown has not started) */
+#define SLOW_MARK 987654321
 
-struct TProbe { int64_t val; pthread_t owner; int64_t canary; };
+struct TProbe { int64_t val; pthread_t owner; int64_t canary; int64_t oidx; };
 static void TProbe_New(var self, var args) { struct TProbe* p = self; p->val = c_int(get(args, $I(0))); p->owner = pthread_self(); p->canary = 0x7470726f6265LL; atomic_fetch_add(&tprobe_live, 1);
+  p->oidx = my_idx; if (my_idx >= 0) atomic_fetch_add(&live_by[my_idx], 1);
   if (!pthread_equal(p->owner, main_thread)) atomic_fetch_add(&tprobe_child_live, 1); }
-static void TProbe_Del(var self) { struct TProbe* p = self; if (!pthread_equal(p->owner, pthread_self()) || p->canary != 0x7470726f6265LL) atomic_fetch_add(&foreign_retire, 1); if (p->canary == 0x7470726f6265LL && !pthread_equal(p->owner, main_thread)) atomic_fetch_sub(&tprobe_child_live, 1);
+static void TProbe_Del(var self) { struct TProbe* p = self; if (!pthread_equal(p->owner, pthread_self()) || p->canary != 0x7470726f6265LL) atomic_fetch_add(&foreign_retire, 1); if (p->val == SLOW_MARK) usleep(300);          /* a finaliser that takes its time: teardown of a finished thread lasts a while */
+  if (p->canary == 0x7470726f6265LL && p->oidx >= 0) atomic_fetch_sub(&live_by[p->oidx], 1);
+  if (p->canary == 0x7470726f6265LL && !pthread_equal(p->owner, main_thread)) atomic_fetch_sub(&tprobe_child_live, 1);
   p->canary = 0; atomic_fetch_sub(&tprobe_live, 1); }
 var TProbe = Cello(TProbe, Instance(New, TProbe_New, TProbe_Del));
 
 struct Res { uint64_t digest; long cs_in[64], cs_out[64]; int ncs; long tryfail; long ended; int exc_seen; int64_t cell; };
-#define MAXT 32
 static struct Res res_thr[MAXT], res_alone[MAXT];
 static var the_mutex;
 static int64_t cells[MAXT];               /* written by thread i, read by main after join */
@@ -94,8 +101,11 @@ static void __attribute__((noinline)) work(uint64_t seed, int rounds, struct Res
 
 static var thread_main(var args) {
   int idx = (int)c_int(get(args, $I(0))); uint64_t seed = (uint64_t)c_int(get(args, $I(1))); int rounds = (int)c_int(get(args, $I(2)));
+  my_idx = idx;
   work(seed, rounds, &res_thr[idx], 1, idx);
+  for (int i = 0; i < 40; i++) { var g = new(TProbe, $I(SLOW_MARK)); (void)g; }      /* left to the thread's teardown */
   res_thr[idx].ended = atomic_fetch_add(&order_ticket, 1);
+  atomic_store(&fn_done[idx], 1);
   return NULL;
 }
 
@@ -122,6 +132,7 @@ int main(int argc, char** argv) {
       if (k > MAXT) k = MAXT;
       memset(res_thr, 0, sizeof res_thr); memset(res_alone, 0, sizeof res_alone);
       for (int i = 0; i < k; i++) work(seed + (uint64_t)i, rounds, &res_alone[i], 0, i);        /* each workload alone, in main */
+      for (int i = 0; i < MAXT; i++) { atomic_store(&live_by[i], 0); atomic_store(&fn_done[i], 0); }
       atomic_store(&ticket, 0); atomic_store(&order_ticket, 0); shared_plain = 0; atomic_store(&foreign_retire, 0);
       var th[MAXT];
       for (int i = 0; i < k; i++) th[i] = new(Thread, fn);
@@ -134,13 +145,19 @@ int main(int argc, char** argv) {
         ((struct Int*)a_seed[i])->val = (int64_t)(seed + (uint64_t)i);
         call(th[i], a_idx[i], a_seed[i], a_rounds);
       }
-      long joined[MAXT]; int64_t seen[MAXT];
-      for (int i = 0; i < k; i++) { join(th[i]); joined[i] = atomic_fetch_add(&order_ticket, 1); seen[i] = cells[i]; }
+      long joined[MAXT]; int64_t seen[MAXT]; long liveatjoin[MAXT];
+      for (int i = 0; i < k; i++) {
+        /* every second thread is joined only after its function has returned, while its teardown is still going on:
+           join must wait for the whole thread, not just for its function */
+        if (i % 2 == 0) { for (int w = 0; w < 200000 && !atomic_load(&fn_done[i]); w++) sched_yield(); usleep(1500); }
+        join(th[i]); liveatjoin[i] = atomic_load(&live_by[i]);
+        joined[i] = atomic_fetch_add(&order_ticket, 1); seen[i] = cells[i];
+      }
       long total_cs = 0;
       for (int i = 0; i < k; i++) {
         ev_begin("thread"); ev_int("t", i); ev_limbs("digest", res_thr[i].digest); ev_limbs("alone", res_alone[i].digest);
         ev_int("ended", res_thr[i].ended); ev_int("joined", joined[i]); ev_limbs("cell", (uint64_t)res_thr[i].cell); ev_limbs("seen", (uint64_t)seen[i]);
-        ev_int("ncs", res_thr[i].ncs); ev_ints("tin", (long long*)res_thr[i].cs_in, 0); ev_end();
+        ev_int("liveatjoin", liveatjoin[i]); ev_int("ncs", res_thr[i].ncs); ev_ints("tin", (long long*)res_thr[i].cs_in, 0); ev_end();
         for (int c = 0; c < res_thr[i].ncs; c++) { ev_begin("cs"); ev_int("t", i); ev_int("tin", res_thr[i].cs_in[c]); ev_int("tout", res_thr[i].cs_out[c]); ev_end(); total_cs++; }
       }
       ev_begin("summary"); ev_int("k", k); ev_int("plain", shared_plain); ev_int("sections", total_cs); ev_int("foreign", atomic_load(&foreign_retire));
